@@ -25,6 +25,7 @@
     persistent state, any allocator answers) + NewPeriodicSyncer. *)
 From BBS Require Import Common.Sx Persist.PBL Persist.PBLProofs Persist.Syncer Persist.SyncerProofs
   Persist.Shutdown Persist.ShutdownProofs Persist.ShutdownOrder Run.R03.
+From BBS Require Import Run.R03MonGhost Run.R03MonFields Run.R03MonReplay Run.R03Mon Run.R03MonAck Run.R03MonObs Run.R03MonInherit Run.R03MonStoreFields Run.R03MonList Run.R03MonCopies Run.R03MonReadback Run.R03MonEx.
 Local Open Scope nat_scope.
 
 (** The ghost never influences the run. *)
@@ -232,4 +233,206 @@ Proof. vm_compute. repeat split; reflexivity. Qed.
 Example layout_nonvacuous :
   ocn_new (cas_policy 2 3) 1 6 = mkLayout 1 0 5 0 /\ ocn_new (cas_policy 2 3) 1 7 = mkLayout 2 0 5 1 /\
   ocn_new (ac_policy 2) 1 4 = mkLayout 1 2 1 0.
+Proof. vm_compute. repeat split; reflexivity. Qed.
+
+(** ================= the monitor of Run/R03.v versus the model =================
+    Run/R03.v has no generative [run03 inp]: the model side of [judge03] is trace validation
+    ([replay03 inp obs = []]: the model ACCEPTS the observed call history; the nondeterminism —
+    interleaving, I/O outcomes, allocator answers — is resolved from the observation).  "The
+    monitor is silent on the model" is therefore stated over EVERY observation the model accepts,
+    i.e. for every resolution.  Proofs: Run/R03Mon*.v.
+
+    Full statement (NOT proved: clause 5 "wrong bytes" needs the data device and the index above
+    the block list, which Persist/*.v does not model):
+      forall inp obs, is_marker obs = false -> replay03 inp obs = [] -> store_ok inp obs -> mon03 inp obs = [].
+    Proved below: every clause except 5 ([mon03_silent_on_accepted_partial2]), the part of the store
+    that the model does not contain entering as two decidable checks on the observation ([u_obs],
+    [r_obs]) which hold on the generated observations.
+
+    Proved: clauses 2, 3, 7, 8 never fire (the hypothesis [u_obs], a decidable check on the
+    observation, is the store-level link "the result of an upload op is the one the store derives
+    from the finalizer of the same op, and no final NotifySyncStarting / return of ProcessBlockPut
+    lies inside an upload op" — R03MonAck.v; it holds on all 1000 generated observations it was
+    evaluated on) ... *)
+Theorem mon03_silent_on_accepted_partial : forall inp obs,
+  is_marker obs = false -> replay03 inp obs = [] -> u_obs inp obs = true ->
+  forall z, In z (mon03 inp obs) -> z = 1%Z \/ z = 4%Z \/ z = 5%Z.
+Proof. exact R03MonObs.mon03_silent_on_accepted_partial. Qed.
+Print Assumptions mon03_silent_on_accepted_partial.
+
+(** ... and for clauses 1 and 4 the PREMISE is sound: incarnation by incarnation ([obl_sound],
+    Run/R03MonObs.v), on every accepted observation, with NO further hypothesis: the incarnation's
+    history is a run of the model from NewPersistentBlockList + NewPeriodicSyncer ([greachable]);
+    if the monitor has seen the final synchronisation begin the model's list is closed for writing;
+    if it has seen ProcessBlockPut return the model's put loop has exited; and whenever the monitor
+    carries its acknowledged copies as obligations into the next incarnation ([m_prev] of
+    [mon_exit] is 1 = graceful or 2 = crash after a commit that began after the last Put /
+    finalizer), the state the next incarnation is restored from ([x_state]) is the state of the
+    model's newest completed write, whose cohort is EVERY acknowledgement of the model and which
+    covers each of them (so by [record_resolves_after_restart] their index records resolve on the
+    restarted list unless rotation had evicted the block). *)
+Theorem mon03_obligations_sound : forall inp obs, replay03 inp obs = [] ->
+  let c := sx_nth inp 0 in
+  obl_sound c (sx_nth inp 1) c (mkConfig (sx_N (sx_nth c 9)) (sx_N (sx_nth c 10))) (sx_Z (sx_nth c 0))
+            (sx_list (sx_nth inp 2)) (sx_list obs) m_init init_pstate 0%N.
+Proof. exact R03MonObs.mon03_obligations_sound. Qed.
+Print Assumptions mon03_obligations_sound.
+
+(** ... and over SEVERAL restarts: the monitor keeps a copy as an obligation over any number of
+    incarnations as long as every exit in between was graceful or followed a completed commit, while
+    the ghost of Shutdown.v starts every incarnation empty.  [chain_sound] (Run/R03MonInherit.v) starts
+    the ghost of the next incarnation on the acknowledgements the previous one left covered and still
+    listed ([inh_list], renumbered relative to the written state; sound because a covered
+    acknowledgement satisfies the invariant of the restarted list, [G_inherit]): for every accepted
+    observation in which every restart re-attached all blocks of the state file ([all_restored_h],
+    decidable; true on the 800 generated observations it was evaluated on), every incarnation is a run
+    of the model from NewPersistentBlockList on the state its predecessor left, and whenever the monitor
+    carries obligations on, the state on the medium covers every acknowledgement of this incarnation
+    AND every inherited one (rotation out of the list being the only excuse); moreover at EVERY point
+    of every incarnation's history ([acks_resolve], for every prefix of the entries) every
+    acknowledgement made so far or inherited is evicted or its index record — the BlockReference
+    written at acknowledgement time — resolves on the current list to its block with its epoch seed,
+    below the write cursor (distances < 2^32 epochs, < 2^16 blocks as in
+    [record_resolves_after_restart]). *)
+Theorem mon03_obligations_sound_chain : forall inp obs, replay03 inp obs = [] ->
+  forallb all_restored_h (sx_list obs) = true ->
+  let c := sx_nth inp 0 in
+  chain_sound c (sx_nth inp 1) c (mkConfig (sx_N (sx_nth c 9)) (sx_N (sx_nth c 10))) (sx_Z (sx_nth c 0))
+              (sx_list (sx_nth inp 2)) (sx_list obs) m_init init_pstate 0%N [].
+Proof. exact R03MonInherit.mon03_obligations_sound_chain. Qed.
+Print Assumptions mon03_obligations_sound_chain.
+
+(** ... and the objects of those obligations ARE acknowledgements of the model.  The monitor keeps, per
+    acknowledged upload, the key and the LOCATION of the block its BlockList.Put went into, and
+    drops the copy when a PopFront at full occupancy removes the block at that location; the model's
+    ghost keeps the absolute block index and the BlockReference written into the index record.
+    Run/R03MonCopies.v runs a second bookkeeping [lst] alongside the monitor (which Put belongs to which
+    upload slot, which finalizer returned OK in the current op segment, which reference each copy's
+    finalizer reported: [l_cr]) and proves, for every accepted incarnation history satisfying the
+    decidable link checks [l_all] (every PopFront at full occupancy — the only eviction the monitor
+    excuses; a copy's upload had, with no PopFront since, an OK finalizer in its op segment, the one of
+    the Put recorded for its slot; no second restore entry — true on the 800 generated observations
+    they were evaluated on): the monitor's view of the list [m_live] is the list of the locations of
+    the model's blocks; every copy made in this incarnation has an acknowledgement of the model with
+    the reference its finalizer reported, NOT evicted, whose block sits at the copy's location; and if
+    the monitor carries the copy into the next incarnation as an obligation, the state the next
+    incarnation is restored from covers that acknowledgement and still lists its block, so the
+    reference resolves on the restarted list to that block with its seed, below the restored write
+    cursor.  What remains between this and "clauses 1, 4 silent" is the store above the block list:
+    that the read-back finds the index record (key-location map) and that the old/current/new map
+    admits the block. *)
+Theorem mon03_owed_copies_resolve : forall c cfg bs st0 now e0 es x0 x1 cfgsx objs ops m0,
+  replay_restore c cfg bs st0 now e0 = Some x0 ->
+  replay_entries cfg bs 1 x0 es = (x1, []) ->
+  m_fresh m0 -> m_start m0 ->
+  l_all cfgsx objs ops (mon_entry cfgsx objs ops m0 e0) (l0 (old_crs m0)) es = true ->
+  let m1 := fold_left (mon_entry cfgsx objs ops) (e0 :: es) m0 in
+  let l1 := l_fold cfgsx objs ops (mon_entry cfgsx objs ops m0 e0) (l0 (old_crs m0)) es in
+  map fst (l_cr l1) = m_copies m1 /\
+  m_live m1 = map fst (locs (s_pbl (x_sys x1))) /\
+  exists alloc oldest init gx, greachable cfg alloc oldest init now (x_sys x1) gx /\
+  forall cp ref, In (cp, ref) (l_cr l1) -> c_old cp = false ->
+    exists a, In a (g_acks (gs_g gx)) /\ a_ref a = (fst (fst ref), snd (fst ref)) /\ a_seed a = snd ref /\
+      totalReleased (s_pbl (x_sys x1)) <= a_abs a /\
+      loc_at (x_sys x1) (a_abs a) = Some (c_loc cp) /\
+      (m_prev (mon_exit m1) <> 0%Z ->
+         exists w rest, gs_writes gx = w :: rest /\ x_state x1 = gw_state w /\ covers w a /\
+           gw_base_abs w <= a_abs a /\
+           ((N.of_nat (a_ep a - gw_base_ep w) < 2 ^ 32)%N -> (Z.of_nat (a_last a - a_abs a) < 2 ^ 16)%Z ->
+            ref_to_index (fst (fst ref)) (snd (fst ref)) (restart_of (x_state x1))
+              = Ok (Some (a_abs a - gw_base_abs w, snd ref)) /\
+            exists b, nth_error (blocks (restart_of (x_state x1))) (a_abs a - gw_base_abs w) = Some b /\
+                      (a_end a <= b_written b)%Z)).
+Proof. exact R03MonCopies.mon03_owed_copies_resolve. Qed.
+Print Assumptions mon03_owed_copies_resolve.
+
+(** ... which closes clauses 1 and 4 up to ONE statement about the store above the block list, made
+    explicit as the decidable check [r_obs] (Run/R03MonReadback.v; it contains the link checks of
+    [mon03_owed_copies_resolve], "every restart re-attaches all blocks of the state file", fewer than
+    2^16 listed blocks / 2^32 listed epochs, and per read-back entry (32 k ...), evaluated on the replay's
+    MODEL state: if the BlockReference of an owed copy of key k resolves on the model's current list with
+    its seed, the entry reports the key readable — "the store finds what the block list resolves", the
+    business of the key-location map and the old/current/new map, C06 / C05).  For this the copies'
+    acknowledgements are carried over restarts together with their block LOCATIONS ([Sn]: a state
+    snapshot lists, in order, the locations of the blocks of its moment; [carry_ack]), so inherited
+    copies are live acknowledgements too, and every live acknowledgement resolves at every point.
+    [r_obs] is true on the 800 generated observations it was evaluated on; it cannot be dropped
+    ([mon03_r_obs_is_needed]). *)
+Theorem mon03_clauses14_silent : forall inp obs, replay03 inp obs = [] -> r_obs inp obs = true ->
+  forall z, In z (mon03 inp obs) -> z <> 1%Z /\ z <> 4%Z.
+Proof. exact R03MonReadback.mon03_clauses14_silent. Qed.
+Print Assumptions mon03_clauses14_silent.
+
+(** all clauses but "wrong bytes": on every observation the model accepts and whose op results /
+    read-backs are consistent with the recorded block-list history in the sense of the two decidable
+    checks, the monitor can only report clause 5 *)
+Theorem mon03_silent_on_accepted_partial2 : forall inp obs,
+  is_marker obs = false -> replay03 inp obs = [] -> u_obs inp obs = true -> r_obs inp obs = true ->
+  forall z, In z (mon03 inp obs) -> z = 5%Z.
+Proof. exact R03MonReadback.mon03_silent_on_accepted_partial2. Qed.
+Print Assumptions mon03_silent_on_accepted_partial2.
+
+(** one incarnation, spelled out *)
+Theorem mon03_incarnation_sound : forall c cfg bs st0 now e0 es x0 x1 cfgsx objs ops m0,
+  replay_restore c cfg bs st0 now e0 = Some x0 ->
+  replay_entries cfg bs 1 x0 es = (x1, []) ->
+  m_fresh m0 ->
+  let m1 := fold_left (mon_entry cfgsx objs ops) (e0 :: es) m0 in
+  exists alloc oldest init gx,
+    greachable cfg alloc oldest init now (x_sys x1) gx /\
+    x_state x1 = match gs_writes gx with w :: _ => gw_state w | [] => st0 end /\
+    (m_final m1 = true -> closedForWriting (s_pbl (x_sys x1)) = true) /\
+    (m_exited m1 = true -> s_p (x_sys x1) = PExit) /\
+    (m_prev (mon_exit m1) <> 0%Z ->
+       exists w rest, gs_writes gx = w :: rest /\ x_state x1 = gw_state w /\
+                      gw_cohort w = g_acks (gs_g gx) /\
+                      forall a, In a (g_acks (gs_g gx)) -> covers w a).
+Proof. exact R03Mon.mon03_incarnation_sound. Qed.
+Print Assumptions mon03_incarnation_sound.
+
+(** once the monitor's final flag is set, every finalizer entry the model accepts is a refusal
+    (class 1, errClosedForWriting) or the block's own error (class 3): the model never acknowledges *)
+Theorem mon03_no_ack_after_final : forall o cfg bs m x gx e x',
+  G o (x_sys x) gx -> J m (x_sys x) gx -> m_final m = true ->
+  tag e = 4%Z -> replay_entry cfg bs x e = Some x' ->
+  sx_Z (sx_nth e 2) = 1%Z \/ sx_Z (sx_nth e 2) = 3%Z.
+Proof. exact R03Mon.mon03_no_ack_after_final. Qed.
+Print Assumptions mon03_no_ack_after_final.
+
+(** non-vacuity: two observations of the REAL code (Run/R03MonEx.v) meet the hypotheses; in the
+    first the monitor carries one obligation out of a graceful shutdown that refused an upload, in the
+    second two obligations out of a crash after a commit *)
+Definition first_inc (inp obs : sx) : mst :=
+  mon_incs (sx_nth inp 0) (sx_nth inp 1) (firstn 1 (sx_list (sx_nth inp 2))) (firstn 1 (sx_list obs)) m_init.
+
+Example mon03_hyps_nonvacuous_graceful :
+  is_marker exg_obs = false /\ replay03 exg_inp exg_obs = [] /\ u_obs exg_inp exg_obs = true /\
+  mon03 exg_inp exg_obs = [] /\ length (sx_list exg_obs) = 2 /\
+  forallb all_restored_h (sx_list exg_obs) = true /\ l_obs exg_inp exg_obs = true /\ r_obs exg_inp exg_obs = true /\
+  m_prev (first_inc exg_inp exg_obs) = 1%Z /\ length (m_copies (first_inc exg_inp exg_obs)) = 1 /\
+  existsb (fun e => Z.eqb (tag e) 4 && Z.eqb (sx_Z (sx_nth e 2)) 1) (sx_list (sx_nth exg_obs 0)) = true.
+Proof. vm_compute. repeat split; reflexivity. Qed.
+
+Example mon03_hyps_nonvacuous_crash :
+  is_marker exc_obs = false /\ replay03 exc_inp exc_obs = [] /\ u_obs exc_inp exc_obs = true /\
+  mon03 exc_inp exc_obs = [] /\ length (sx_list exc_obs) = 3 /\
+  forallb all_restored_h (sx_list exc_obs) = true /\ l_obs exc_inp exc_obs = true /\ r_obs exc_inp exc_obs = true /\
+  m_prev (first_inc exc_inp exc_obs) = 2%Z /\ length (m_copies (first_inc exc_inp exc_obs)) = 2.
+Proof. vm_compute. repeat split; reflexivity. Qed.
+
+(** the hypothesis [u_obs] cannot be dropped: the replay validates the block-list / syncer call
+    history, not the results of the store's own operations.  [exb_obs] is [exg_obs] with the result of
+    the refused upload altered by hand from UNAVAILABLE to OK (not an observation of the code): the
+    model still accepts it, [u_obs] rejects it, and the monitor reports clause 2. *)
+Example mon03_u_obs_is_needed :
+  is_marker exb_obs = false /\ replay03 exg_inp exb_obs = [] /\ u_obs exg_inp exb_obs = false /\
+  mon03 exg_inp exb_obs = [2%Z].
+Proof. vm_compute. repeat split; reflexivity. Qed.
+
+(** likewise [r_obs]: [exr_obs] is [exg_obs] with the read-back of the owed key 0 altered by hand to
+    NOT_FOUND (not an observation of the code): the model still accepts it, [r_obs] rejects it, the
+    monitor reports clause 1 *)
+Example mon03_r_obs_is_needed :
+  replay03 exg_inp exr_obs = [] /\ u_obs exg_inp exr_obs = true /\ r_obs exg_inp exr_obs = false /\
+  mon03 exg_inp exr_obs = [1%Z].
 Proof. vm_compute. repeat split; reflexivity. Qed.
